@@ -55,6 +55,8 @@ DIRECTED = [
     # a flow is stopped by another flow in the same processing in which it starts a child (the StartFlow is still pending)
     "flow c\n  match E2()\n  send Out2()\n\nflow p\n  match E1()\n  start c\n  match E3()\n\nflow k\n  match E1()\n  send StopFlow(flow_id=\"p\")\n  match E3()\n\nflow main\n  start k\n  start p\n  match Never()\n",
     "flow c\n  match E2()\n  send Out2()\n\nflow p\n  match E1()\n  activate c\n  match E3()\n\nflow k\n  match E1()\n  send FinishFlow(flow_id=\"p\")\n  match E3()\n\nflow main\n  start k\n  start p\n  match Never()\n",
+    # two flows share an action and stop it themselves in the same later step
+    "flow a\n  match E1()\n  start A1Action(x=1) as $r\n  match E2()\n  send $r.Stop()\n  match E3()\n\nflow b\n  match E1()\n  start A1Action(x=1) as $r\n  match E2()\n  send $r.Stop()\n  match E3()\n\nflow main\n  start a\n  start b\n  match Never()\n",
     "flow c\n  match E1()\n\nflow p\n  start c\n  match E2()\n\nflow main\n  start p as $p\n  match $p.Finished()\n  send Out1()\n  start p\n  match E3()\n  send Out2()\n  match Never()\n",
 ]
 
